@@ -41,8 +41,8 @@ def judge(case):
     rc0, asm0, err0 = compile_(case.src, lang)
     if rc0 != 0:
         return {'counts': ['input_does_not_compile'], 'classes': ['precondition-failed']}, []
-    r, _ = run.fmt(case.src, lang, case.cfg)
-    if r.timeout:
+    r, _ = run.fmt(case.src, lang, case.cfg, cpu=6)
+    if r.timeout and r.cpu < 4:
         return {'inconclusive': True}, []
     fails = []
     mods = sorted(n for n in case.cfgd if n.startswith('mod_'))
